@@ -3,4 +3,5 @@ Require Extraction.
 Require Import ExtrOcamlBasic.
 From Coq Require Import ZArith List.
 From Cspuz Require Import Lib.PyErr Core.Expr Core.Program Core.Build Graph.GraphModel Graph.Avc Graph.Crossable.
-Extraction "model.ml" Z.add Nat.add pyerr_code empty_state new_frame post_crossable split_graph.
+Extraction "model.ml" Z.add Nat.add pyerr_code empty_state new_frame post_crossable split_graph
+  crossable_spec_b outputs_b act_of_bits.
